@@ -435,6 +435,7 @@ func genC01(e *emitter, tier string) {
 			e.emit(graphCase("shared-index-tensor", g, ins))
 		}
 	}
+	e.emit(graphCase("names-differ-in-case", namesDifferInCaseGraph(), []NamedT{{"x", vals("f32", []int{2}, 1, 2)}, {"X", vals("f32", []int{2}, 5, 6)}}))
 	n := 300
 	maxNodes := 8
 	if tier == "thorough" {
